@@ -1,4 +1,213 @@
-//! C01 monitor (not written yet).
-use crate::ctx::Ctx;
+//! C01 — native encode/decode round-trip is the identity, whatever ran before on the thread.
+use crate::corpus::registry::{self as reg, DecOut, RtOut, RtStatus};
+use crate::ctx::{hex, on_thread, Ctx};
+use crate::gen::hostile;
+use crate::model::wire::decode;
+use crate::rng::{hash_str, Rng};
+use candid::DecoderConfig;
+use serde_json::json;
 
-pub fn run(_ctx: &mut Ctx) {}
+#[derive(Clone, Debug)]
+enum Op {
+    Derive(usize),
+    RoundTrip(usize, u64),
+    EncodeOnly(usize, u64, usize),
+    FailedDecode(usize, u64),
+    NewBuilder,
+    Untyped(usize, u64),
+    DecodeForeign(usize, usize, u64),
+}
+
+fn gen_history(rng: &mut Rng, n_types: usize) -> Vec<Op> {
+    let n = match rng.below(4) {
+        0 => 0,
+        1 => 1 + rng.usize(2),
+        _ => 1 + rng.usize(12),
+    };
+    (0..n)
+        .map(|_| {
+            let j = rng.usize(n_types);
+            match rng.below(8) {
+                0 => Op::Derive(j),
+                1 | 2 => Op::RoundTrip(j, rng.next()),
+                3 => Op::EncodeOnly(j, rng.next(), 1 + rng.usize(3)),
+                4 => Op::FailedDecode(j, rng.next()),
+                5 => Op::NewBuilder,
+                6 => Op::Untyped(j, rng.next()),
+                _ => Op::DecodeForeign(j, rng.usize(n_types), rng.next()),
+            }
+        })
+        .collect()
+}
+
+/// history operations on hostile bytes are metered: unmetered decoding is unbounded by design
+fn quota() -> DecoderConfig {
+    let mut c = DecoderConfig::new();
+    c.set_decoding_quota(200_000);
+    c
+}
+
+fn run_history(ops: &[Op]) {
+    for op in ops {
+        match op {
+            Op::Derive(j) => {
+                reg::with(*j, |t| {
+                    let _ = crate::ctx::catch(|| t.ty());
+                });
+            }
+            Op::RoundTrip(j, s) => {
+                reg::with(*j, |t| {
+                    let _ = t.roundtrip(&mut Rng::new(*s), 12);
+                });
+            }
+            Op::EncodeOnly(j, s, n) => {
+                reg::with(*j, |t| {
+                    let _ = t.encode_gen(&mut Rng::new(*s), 12, *n);
+                });
+            }
+            Op::FailedDecode(j, s) => {
+                let mut r = Rng::new(*s);
+                let bytes = reg::with(*j, |t| t.encode_gen(&mut r, 12, 1)).map(|x| x.0).unwrap_or_default();
+                let bad = hostile::mutate(&mut r, &bytes);
+                reg::with(*j, |t| {
+                    let _ = t.decode(&bad, &quota());
+                });
+            }
+            Op::NewBuilder => {
+                let _ = candid::ser::IDLBuilder::new();
+            }
+            Op::Untyped(j, s) => {
+                let bytes = reg::with(*j, |t| t.encode_gen(&mut Rng::new(*s), 12, 2)).map(|x| x.0).unwrap_or_default();
+                let _ = crate::ctx::catch(|| candid::IDLArgs::from_bytes_with_config(&bytes, &quota()));
+            }
+            Op::DecodeForeign(j, k, s) => {
+                // a message of type j decoded at type k (usually fails half-way)
+                let bytes = reg::with(*j, |t| t.encode_gen(&mut Rng::new(*s), 12, 1)).map(|x| x.0).unwrap_or_default();
+                reg::with(*k, |t| {
+                    let _ = t.decode(&bytes, &quota());
+                });
+            }
+        }
+    }
+}
+
+fn status_str(o: &RtOut) -> String {
+    match &o.status {
+        RtStatus::Ok => "ok".into(),
+        RtStatus::EncodeErr(e) => format!("encode-error: {}", e.lines().next().unwrap_or("")),
+        RtStatus::DecodeErr(e) => format!("decode-error: {}", e.lines().next().unwrap_or("")),
+        RtStatus::Mismatch => "decoded value differs".into(),
+        RtStatus::Leftover(e) => format!("leftover: {}", e.lines().next().unwrap_or("")),
+        RtStatus::Panic(p) => format!("panic at {}: {}", p.location, p.message.lines().next().unwrap_or("")),
+    }
+}
+fn status_class(o: &RtOut) -> &'static str {
+    match &o.status {
+        RtStatus::Ok => "ok",
+        RtStatus::EncodeErr(_) => "encode-error",
+        RtStatus::DecodeErr(_) => "decode-error",
+        RtStatus::Mismatch => "roundtrip-mismatch",
+        RtStatus::Leftover(_) => "leftover",
+        RtStatus::Panic(_) => "panic",
+    }
+}
+
+pub fn run(ctx: &mut Ctx) {
+    let n_types = reg::len();
+    ctx.stats
+        .extra
+        .insert("corpus_types".into(), json!(n_types));
+    ctx.cases("roundtrip-with-history", 1.0, |ctx, rng| {
+        let i = rng.usize(n_types);
+        let seed = rng.next();
+        let fuel = *rng.pick(&[1i64, 6, 20, 60]);
+        let hist = gen_history(rng, n_types);
+        let (name, kind) = reg::with(i, |t| (t.name(), t.kind()));
+        // fresh thread, empty history
+        let base = on_thread(32 << 20, move || reg::with(i, |t| t.roundtrip(&mut Rng::new(seed), fuel)));
+        // fresh thread, history first
+        let h2 = hist.clone();
+        let probe = on_thread(32 << 20, move || {
+            run_history(&h2);
+            reg::with(i, |t| t.roundtrip(&mut Rng::new(seed), fuel))
+        });
+        let (base, probe) = match (base, probe) {
+            (Ok(b), Ok(p)) => (b, p),
+            (Err(p), _) | (_, Err(p)) => {
+                ctx.violation(
+                    &format!("panic-outside-catch|{name}|{}", p.location),
+                    &p.message,
+                    json!({"type": name, "history": format!("{hist:?}")}),
+                );
+                return;
+            }
+        };
+        ctx.count(&format!("cover:kind:{kind}"));
+        let input = |o: &RtOut| {
+            json!({
+                "type": name, "value_seed": seed, "fuel": fuel,
+                "value": o.model.to_string().chars().take(600).collect::<String>(),
+                "decoded": o.decoded_model.as_ref().map(|m| m.to_string().chars().take(600).collect::<String>()),
+                "bytes": hex(&o.bytes), "history": format!("{hist:?}"),
+            })
+        };
+        if !matches!(base.status, RtStatus::Ok) {
+            ctx.violation(
+                &format!("{}|{name}", status_class(&base)),
+                &format!("round-trip in a fresh thread: {}", status_str(&base)),
+                input(&base),
+            );
+        }
+        if !matches!(probe.status, RtStatus::Ok) && status_class(&probe) != status_class(&base) {
+            ctx.violation(
+                &format!("after-history|{}|{name}", status_class(&probe)),
+                &format!(
+                    "round-trip after a history of {} calls: {} (fresh thread: {})",
+                    hist.len(),
+                    status_str(&probe),
+                    status_str(&base)
+                ),
+                input(&probe),
+            );
+        }
+        // hash-based containers iterate in a per-instance random order: their bytes are compared by meaning only
+        let hashed = name.contains("HashMap") || name.contains("HashSet");
+        if probe.bytes != base.bytes && !hashed {
+            // the encoding may legitimately differ only in ... nothing: same value, same type, same thread-state-free result
+            let semantically_same = match (decode(&probe.bytes), decode(&base.bytes)) {
+                (Ok(a), Ok(b)) => a.values == b.values,
+                _ => false,
+            };
+            ctx.violation(
+                &format!(
+                    "history-dependent-bytes|{}|{name}",
+                    if semantically_same { "same-meaning" } else { "different-meaning" }
+                ),
+                "the same value of the same type encoded to different bytes depending on earlier calls on the thread",
+                json!({"type": name, "fresh": hex(&base.bytes), "after_history": hex(&probe.bytes), "history": format!("{hist:?}")}),
+            );
+        }
+        let nonempty = match &base.model {
+            crate::model::RValue::Vec(v) => !v.is_empty(),
+            crate::model::RValue::Null => false,
+            _ => true,
+        };
+        if nonempty {
+            let shape_h: Vec<&'static str> = hist
+                .iter()
+                .map(|o| match o {
+                    Op::Derive(_) => "d",
+                    Op::RoundTrip(..) => "r",
+                    Op::EncodeOnly(..) => "e",
+                    Op::FailedDecode(..) => "f",
+                    Op::NewBuilder => "n",
+                    Op::Untyped(..) => "u",
+                    Op::DecodeForeign(..) => "x",
+                })
+                .collect();
+            ctx.nontrivial(hash_str(&format!("{name}|{}|{}", base.bytes.len(), shape_h.concat())));
+        }
+        ctx.sample(|| input(&base));
+    });
+    let _ = DecOut::Err(String::new());
+}
